@@ -300,6 +300,100 @@ def same_second_incremental(max_attempts=8, wanted=3):
     return lines, hits
 
 
+INSIDE_PACKERS = {
+    'NO-pp1': dict(mode='NO', perpack=True, do_fsync=True, clean=False),
+    'YES-pp0-clean': dict(mode='YES', perpack=False, do_fsync=True, clean=True),
+    'NO-pp1-nofsync': dict(mode='NO', perpack=True, do_fsync=False, clean=False),
+    'AUTO-pp0-nofsync-clean': dict(mode='AUTO', perpack=False, do_fsync=False, clean=True),
+}
+
+
+def inside_job(job):
+    """Backups taken while the packer is suspended after its n-th file-system / SQL step (placements *inside* the packing
+    call, which the phase-boundary hooks cannot produce): for every n.  The scheduler of C04 is used: the packer is an
+    actor whose every shared-state call is a yield point, the backup runs as one block while the packer is parked."""
+    pname = job
+    import shutil  # pylint: disable=import-outside-toplevel
+    common.import_lib()
+    from .. import sched, shim  # pylint: disable=import-outside-toplevel
+    from disk_objectstore import CompressMode, Container, backup_utils  # pylint: disable=import-outside-toplevel
+    shim.install()
+    spec = INSIDE_PACKERS[pname]
+    table = contents()
+    lines = []
+
+    def packer(folder):
+        def body(_s):
+            cont = Container(folder)
+            try:
+                cont.pack_all_loose(compress=CompressMode[spec['mode']], clean_loose_per_pack=spec['perpack'], do_fsync=spec['do_fsync'])
+                if spec['clean']:
+                    cont.clean_storage()
+            finally:
+                cont.close()
+        return body
+
+    with common.scratch('bki') as work:
+        base = os.path.join(work, 'base')
+        cont = Container(base)
+        cont.init_container(pack_size_target=40, loose_prefix_len=2)
+        cont.add_objects_to_pack([table['k5']], compress=False)
+        for key in ('k1', 'k2', 'k3', 'k6', 'k7'):
+            cont.add_object(table[key])
+        cont.close()
+        before = ['k5', 'k1', 'k2', 'k3', 'k6', 'k7']
+        n_steps = None
+        n = 0
+        while n_steps is None or n <= n_steps:
+            folder = os.path.join(work, f'run{n}')
+            shutil.copytree(base, folder)
+            dest = os.path.join(work, f'dest{n}')
+            os.makedirs(dest)
+            outcome = {}
+
+            def backup(_folder, folder=folder, dest=dest, outcome=outcome):
+                def body(_s):
+                    source = Container(folder)
+                    try:
+                        manager = backup_utils.BackupManager(dest)
+                        path_type = type(source.get_folder())
+                        backup_utils.backup_container(manager, source, path_type(os.path.join(dest, 'b1')), None)
+                    except backup_utils.BackupError as exc:
+                        outcome['failed'] = str(exc)[:200]
+                    finally:
+                        source.close()
+                return body
+
+            sh = shim.SHIM
+            sh.clear()
+            sh.add_root(folder, 'c', 2, table)
+            actors = [sched.Actor('P', packer(folder)), sched.Actor('B', backup(folder))]
+            scheduler = sched.Scheduler(actors, [('P', n), ('B', None), ('P', None)])
+            sh.handler = scheduler
+            try:
+                scheduler.run()
+            finally:
+                sh.clear()
+            if n_steps is None:
+                n_steps = actors[0].steps if n == 0 else n_steps
+            crashed = [ev for ev in scheduler.trace if ev.get('e') == 'crashed']
+            failed = outcome.get('failed', '') or (crashed[0]['msg'] if crashed else '')
+            line = {'script': f'inside:{pname}', 'placement': [f'packer-step-{n}'], 'incremental': False, 'long_open_source': False,
+                    'before': before, 'failed': bool(failed), 'error': failed}
+            if failed:
+                line.update(obs={'loose': [], 'rows': [], 'packs': []}, views=[], listed=[], val='n/a')
+            else:
+                obs, views, listed, val = examine(os.path.join(dest, 'b1'), table)
+                line.update(obs=obs, views=views, listed=listed, val=val)
+            lines.append(line)
+            shutil.rmtree(folder, ignore_errors=True)
+            shutil.rmtree(dest, ignore_errors=True)
+            if n == 0:
+                n_steps = actors[0].steps
+            n += 1 if common.tier() == 'thorough' else 2
+    return lines
+
+
 def placements(n_steps):
     idx = range(len(POSITIONS))
     for combo in itertools.combinations_with_replacement(idx, n_steps):
@@ -382,6 +476,8 @@ def check_C15(report: common.Report):
                 jobs.append((name, placement, incremental, len(jobs), len(jobs) % 2 == 1))
     special, same_second = same_second_incremental()
     lines = common.pmap(run_backup, jobs) + special
+    inside = [line for part in common.pmap(inside_job, list(INSIDE_PACKERS)) for line in part]
+    lines += inside
     with common.scratch('bkm') as work:
         trace_file = os.path.join(work, 'backup.ndjson')
         with open(trace_file, 'w', encoding='utf8') as handle:
@@ -409,6 +505,13 @@ def check_C15(report: common.Report):
             continue
         seen.add(key)
         bad = [v for v in line['views'] if v['cls'] not in ('OK', 'NotExistent') or (v['k'] in line['before'] and v['cls'] != 'OK')]
+        if line['script'].startswith('inside:'):
+            report.violation({'invariant': inv, 'script': line['script']},
+                             {'driver': 'backup', 'script': line['script'], 'placement': line['placement']},
+                             f"{inv}: backup taken while the packer {line['script'][7:]} is suspended at {line['placement'][0]} "
+                             f"(of its file-system / SQL steps): val={line['val']} bad={bad} listed={line['listed']} "
+                             f"obs={json.dumps(line['obs'])[:500]}")
+            continue
         if line['script'] == 'same-second-incremental':
             report.violation({'invariant': inv, 'script': line['script']}, {'driver': 'backup', 'script': line['script']},
                              f"{inv}: a backup, then add + pack_all_loose + clean_storage of k6, then an incremental backup whose index "
@@ -430,6 +533,7 @@ def check_C15(report: common.Report):
     report.set('backups_taken', len(lines))
     report.set('backups_that_failed_outside_property', failed)
     report.set('incremental_backups_with_both_dumps_in_the_same_second', same_second)
+    report.set('backups_inside_the_packing_call', len(inside))
     report.set('traces_validated_against_impl', len(lines))
     report.add('states', res.distinct)
     report.add('transitions', res.generated)
@@ -443,6 +547,11 @@ def check_C15(report: common.Report):
 
 def replay(data) -> int:
     rep = data['replay']
+    if str(rep.get('script', '')).startswith('inside:'):
+        for line in inside_job(rep['script'][7:]):
+            if line['placement'] == rep.get('placement'):
+                print({k: v for k, v in line.items() if k not in ('obs',)})
+        return 0
     if rep.get('script') == 'same-second-incremental':
         lines, hits = same_second_incremental()
         for line in lines:
